@@ -79,4 +79,56 @@ s=s.replace(a,'''			if ae1.windCount == -ae2.windDx {
 			} else {
 				ae1.windCount = ae1.windCount + ae2.windDx
 			}''',1); open(p,'w').write(s)" C01
+run "PerpendicDistFromLineSqr64: named cross product, explicit square" "
+p='/repo/clipper.go'; s=open(p).read()
+i=s.index('func PerpendicDistFromLineSqr64')
+a='	return sqr(a*d-c*b) / (c*c + d*d)'
+j=s.index(a,i)
+s=s[:j]+'''	cross := a*d - c*b
+	lenSqr := c*c + d*d
+	return cross * cross / lenSqr'''+s[j+len(a):]; open(p,'w').write(s)" C16
+run "triSign: else-if chain" "
+p='/repo/internal_clipper.go'; s=open(p).read()
+a='''	if x < 0 {
+		return -1
+	}
+	if x > 1 {
+		return 1
+	}
+	return 0'''
+assert a in s
+s=s.replace(a,'''	if x > 1 {
+		return 1
+	} else if x < 0 {
+		return -1
+	} else {
+		return 0
+	}''',1); open(p,'w').write(s)" C15
+run "Area64: a = a + ..., renamed loop variable" "
+p='/repo/clipper.go'; s=open(p).read()
+a='''	for _, pt := range path {
+		a += (prevPt.Y + pt.Y) * (prevPt.X - pt.X)
+		prevPt = pt
+	}'''
+assert a in s
+s=s.replace(a,'''	for _, cur := range path {
+		a = a + (prevPt.Y+cur.Y)*(prevPt.X-cur.X)
+		prevPt = cur
+	}''',1); open(p,'w').write(s)" C14
+run "getBounds: right/bottom tested before left/top" "
+p='/repo/internal_clipper.go'; s=open(p).read()
+i=s.index('func getBounds(')
+a='''		if pt.X < result.left {
+			result.left = pt.X
+		}
+		if pt.X > result.right {
+			result.right = pt.X
+		}'''
+j=s.index(a,i)
+s=s[:j]+'''		if pt.X > result.right {
+			result.right = pt.X
+		}
+		if pt.X < result.left {
+			result.left = pt.X
+		}'''+s[j+len(a):]; open(p,'w').write(s)" C14
 ./build.sh
